@@ -8,8 +8,9 @@
    [drops] (which writes of a Tick fail); theorems quantify over all of them unless stated.
    Events also carry the implementation's FREE CHOICES [rc : rchoice]: whether an Nr ahead of our own Ns is
    ignored (r_ig) and which deadline <= now + zlbDelay the delayed acknowledgement gets (r_zd); the runner's idle
-   poll period is the parameter [poll > 0].  Every theorem below holds for every such choice; /repo HEAD is
-   head_choice / poll = 500. *)
+   poll period is the parameter [poll > 0]; a Submit carries [rf]: after its dead callback a side may refuse further
+   submissions (what a dead channel does with them is not constrained).  Every theorem below holds for every such
+   choice; /repo HEAD is head_choice / poll = 500 / rf = false. *)
 From OV Require Import Common.Base C16.Model C16.Proofs.
 Open Scope Z_scope.
 
